@@ -200,7 +200,8 @@ class World:
         s = self.sims[i]
         if self.sim == "beam":
             # a member built from scratch with the public parameters of the mutated one
-            s2, b2, _ = simlib.beam_simu(3, "SEG2", (0.0, 0.0, 0.0), (2.0, 3.0, 6.0), 2, self.elem == "timoshenko", E=210.0, yAxis=tuple(float(x) for x in self.beam.yAxis))
+            s2, b2, _ = simlib.beam_simu(3, "SEG2", (0.0, 0.0, 0.0), (2.0, 3.0, 6.0), 2, self.elem == "timoshenko", E=210.0, yAxis=tuple(float(x) for x in self.beam.yAxis),
+                                         section=simlib.beam_section_circle() if self.P[i].get("section") == "circle" else None)
             b2.E = self.beam.E
             s2.rho = self.P[i]["rho"]
             for bc in self.P[i]["bc"]:
@@ -300,6 +301,10 @@ def op_apply(w, name, V, tag):
         m.regularization = "AT1" if str(m.regularization).endswith("AT2") else "AT2"
     elif name == "v":
         m.v = V.get(f"nu{tag}", Fraction(1, 10), Fraction(2, 5))
+    elif name == "section":
+        # another cross-section (public parameter of the beam model): a circle instead of the rectangle the member was built with
+        w.beam.section = simlib.beam_section_circle()
+        w.P[0]["section"] = "circle"
     elif name == "yAxis":
         # re-orient the section axes of the member in place (enumerated new axis)
         w.beam.yAxis = (1.0, 1.0, 0.0) if tag.endswith("0") else (0.0, 0.0, 1.0)
@@ -437,7 +442,7 @@ OPS = {"elastic": ["E", "v", "planeStress", "thickness", "rho", "damping", "tran
        "thermal": ["k", "c", "thickness", "rho", "translate", "rotate", "symmetry", "coord", "gcoord", "newmesh", "bc", "set_iter", "kfield", "rhofield", "scheme"],
        "hyper": ["lmbda", "thickness", "rho", "translate", "symmetry", "coord", "gcoord", "newmesh"],
        "phasefield": ["E", "Gc", "l0", "regu", "thickness", "translate", "coord", "newmesh"],
-       "beam": ["E", "yAxis", "rho", "bc"],
+       "beam": ["E", "yAxis", "rho", "bc", "section"],
        "frame": ["E", "rho", "bc", "weld", "hinge", "pin"]}
 
 
@@ -597,6 +602,9 @@ def job_seq(cfg):
                 # the sequence ends with a group-level coordinate assignment that nothing notifying follows: one key per observable,
                 # whatever precedes it (the known finding is the call site `_GroupElem.coord = ...`, not the particular history)
                 okey = f"{cfg['sim']} after a group-level coordinate assignment (_GroupElem.coord) not followed by a notifying operation: {lab}"
+            if cfg["sim"] == "beam" and cfg.get("elem") == "timoshenko" and "section" in cfg["ops"] and lab == "K":
+                # the call site is `beam.section = ...` on a Timoshenko member (shear coefficients computed at construction only), whatever the rest of the history
+                okey = "beam (Timoshenko) after the cross-section was replaced (beam.section = ...): K"
             if g.shape != wnt.shape:
                 res.record(label, Outcome("cex", env={}, how="structure"), make_replay(i, lab), key=okey)
                 continue
@@ -674,6 +682,8 @@ def configs(tier):
             out.append({"sim": "beam", "elem": kind, "ops": [o]})
         for a, b in [(a, b) for a in bops for b in bops]:
             out.append({"sim": "beam", "elem": kind, "ops": [a, b]})
+    if tier != "thorough":
+        out.append({"sim": "beam", "elem": "timoshenko", "ops": ["section"]})  # the Timoshenko member whose section is replaced (known finding) in the quick tier too
     # Mesh.copy(): what another simulation does with the copy never reaches this simulation (followed by a change that forces a re-assembly)
     for sim_, elem_, second in (("elastic", "TRI3", "E"), ("elastic", "TRI3", "rho"), ("thermal", "TRI3", "k"), ("thermal", "TRI3", "rho"), ("elastic", "TRI3", "translate")):
         out.append({"sim": sim_, "elem": elem_, "ops": ["copymesh", second]})
